@@ -2,7 +2,9 @@
 
 from __future__ import annotations
 
+import contextlib
 import itertools
+import logging
 
 import numpy as np
 from hypothesis import strategies as st
@@ -70,6 +72,14 @@ def spectrum(kind, m, scale):
         # eigenvalue gaps of 1.2e-3 * lambda_1: just above the separation threshold SEP
         nl = min(3, m)
         s = [float(np.sqrt(1.0 - 1.2e-3 * j)) for j in range(nl)] + [0.5 ** (k + 1) for k in range(m - nl)]
+    elif kind == "wide-1e-4":
+        # singular values 1, 1e-2, 1e-4, then nothing: Gram eigenvalues 1, 1e-4, 1e-8 - single-precision data define all three
+        # directions (1e-4 is far above 6e-8), a Gram matrix *formed* in single precision loses the third
+        s = [1.0, 1e-2, 1e-4][:m] + [0.0] * max(0, m - 3)
+    elif kind == "wide-decades":
+        s = [10.0 ** -j for j in range(min(m, 5))] + [0.0] * max(0, m - 5)
+    elif kind == "wide-tail":
+        s = [1.0, 0.6, 0.3, 3e-3, 1e-4][:m] + [0.0] * max(0, m - 5)
     elif kind == "rank-one":
         s = [1.0] + [0.0] * (m - 1)
     elif kind == "low-rank":
@@ -347,18 +357,35 @@ def case_labels(case):
 # ----------------------------------------------------------------------------------------------------------------
 
 
-INT_DTYPES = ("int64", "int32", "uint8")
+INT_DTYPES = ("int64", "int32", "uint8", "int16", "int8", "uint16", "f16-intvalued", "f32-intvalued")
+FLOAT_EXACT = {"f16-intvalued": ("float16", 2048.0), "f32-intvalued": ("float32", 2.0 ** 24)}  # integers these floats hold exactly
 
 
 def int_dtype_of(case, X):
-    """numpy dtype name when the case asks for integer storage and the data allow it (integer valued, in range), else None"""
+    """numpy dtype name when the case asks for storage of integer-valued data in an integer dtype or a narrow floating
+    dtype and the data allow it (integer valued, in the range the dtype holds exactly), else None"""
     dt = case.get("dtype")
     if dt not in INT_DTYPES or not ref.is_intvalued(X):
         return None
+    if dt in FLOAT_EXACT:
+        name, lim = FLOAT_EXACT[dt]
+        return name if (not X.size or float(np.max(np.abs(X))) <= lim) else None
     info = np.iinfo(dt)
     if X.size and (X.min() < info.min or X.max() > info.max):
         return None
     return dt
+
+
+def store_dtype_of(case, X):
+    """storage dtype the case asks for, where the data allow it: an integer dtype (integer-valued data in range) or
+    float32 (any data: the holder then denotes the float32 roundings, which the cells read back with den)"""
+    if case.get("dtype") == "float32":
+        return "float32"
+    return int_dtype_of(case, X)
+
+
+def is_f32(case):
+    return case.get("dtype") == "float32"
 
 
 def den_tucker(core, factors):
@@ -408,13 +435,39 @@ def _same(obj, X):
     return D.shape == tuple(X.shape) and float(np.max(np.abs(D - X), initial=0.0)) <= 1e-13 * scale
 
 
-TENSOR_STATES = ["ctor", "ctor", "grown", "grown", "c-order-input", "round-trip-permute", "from-sptensor", "from-ttensor"]
+TENSOR_STATES = ["ctor", "ctor", "grown", "grown", "c-order-input", "round-trip-permute", "from-sptensor", "from-ttensor",
+                 "readonly-shared", "strided-view-input"]
 
 
 def as_tensor(X, case=None):
     """dense holder; returns (object, state label)"""
     case = case or {}
-    dt = int_dtype_of(case, X)
+    dt = store_dtype_of(case, X)
+    if dt == "float32":
+        # single-precision data in the states that keep the dtype: constructor (F / C ordered input, a strided view),
+        # a read-only array shared through copy=False, permute round trip
+        st32 = case.get("state", "ctor")
+        A = np.asfortranarray(X.astype(np.float32))
+        try:
+            if st32 == "c-order-input":
+                return ttb.tensor(np.ascontiguousarray(A)), "dtype-float32,state-c-order-input"
+            if st32 == "round-trip-permute" and X.ndim >= 2:
+                p = np.roll(np.arange(X.ndim), 1)
+                T = ttb.tensor(A, tuple(X.shape)).permute(p).permute(np.argsort(p))
+                if T.data.dtype == np.float32 and ref.same_exact(T.data, A):
+                    return T, "dtype-float32,state-round-trip-permute"
+            if st32 in ("grown", "from-ttensor"):
+                A.flags.writeable = False
+                T = ttb.tensor(A, tuple(X.shape), copy=False)
+                return T, "dtype-float32,state-readonly-" + ("shared" if np.shares_memory(T.data, A) else "copied")
+            if st32 == "from-sptensor":
+                big = np.zeros(tuple(2 * v for v in X.shape), dtype=np.float32, order="F")
+                view = big[tuple(slice(1, None, 2) for _ in X.shape)]
+                view[...] = A
+                return ttb.tensor(view), "dtype-float32,state-strided-view-input"
+        except Exception:  # noqa: BLE001
+            pass
+        return ttb.tensor(np.asfortranarray(X.astype(np.float32)), tuple(X.shape)), "dtype-float32"
     if dt is not None:
         return ttb.tensor(np.asfortranarray(X.astype(dt)), tuple(X.shape)), "dtype-" + dt
     state = case.get("state", "ctor")
@@ -435,6 +488,16 @@ def as_tensor(X, case=None):
         elif state == "from-ttensor":
             # ... a reconstructed Tucker tensor with permutation factors (exact)
             T = as_ttensor(dict(case, family="other", state="ctor", dtype="float"), X, True).full()
+        elif state == "strided-view-input":
+            big = np.zeros(tuple(2 * v for v in X.shape), order="C" if case.get("tseed", 0) % 2 else "F")
+            view = big[tuple(slice(1, None, 2) for _ in X.shape)]
+            view[...] = X
+            T = ttb.tensor(view)
+        elif state == "readonly-shared" and not case.get("hist"):
+            # the caller's array, read-only, shared through copy=False: nvecs only reads
+            A = X.copy(order="F")
+            A.flags.writeable = False
+            T = ttb.tensor(A, tuple(X.shape), copy=False)
     except Exception:  # noqa: BLE001
         T = None
     if T is not None and isinstance(T, ttb.tensor) and tuple(int(v) for v in T.shape) == tuple(X.shape) and _same(T, X):
@@ -443,7 +506,7 @@ def as_tensor(X, case=None):
 
 
 SPTENSOR_STATES = ["ctor", "ctor", "random-order", "explicit-zeros", "explicit-zeros", "npint-shape", "grown", "from-tensor",
-                   "round-trip-permute", "zeroed-by-assignment"]
+                   "round-trip-permute", "zeroed-by-assignment", "readonly-shared"]
 
 
 def nonzeros_F(X):
@@ -470,11 +533,14 @@ def as_sptensor(X, stored="sorted", case=None):
     if stored == "reverse":
         subs, vals = subs[::-1].copy(), vals[::-1].copy()
     nnz = len(subs)
-    dt = int_dtype_of(case, X)
+    dt = store_dtype_of(case, X)
     label = None
     if dt is not None:
         vals = vals.astype(dt)
         label = "dtype-" + dt
+        if dt == "float32":
+            X = np.zeros(shape)
+            X[tuple(subs.T)] = vals.reshape(-1).astype(float)  # what the holder is to denote: the float32 roundings
     state = case.get("state", "ctor")
     if state in ("explicit-zeros", "zeroed-by-assignment") and not (X == 0).any():
         state = "random-order"  # nothing to store a zero at
@@ -518,6 +584,12 @@ def as_sptensor(X, stored="sorted", case=None):
                 e = zs[int(rng.integers(0, len(zs)))][None, :]
                 S = ttb.sptensor(np.vstack([subs, e]), np.vstack([vals, np.ones((1, 1), dtype=vals.dtype)]), shape)
                 S[e] = np.zeros((1, 1), dtype=vals.dtype)
+        elif state == "readonly-shared" and not case.get("hist"):
+            # the caller's arrays, read-only, shared through copy=False; subscripts as int32 (scipy coo coordinates)
+            s2, v2 = np.array(subs, dtype=np.int32 if case.get("tseed", 0) % 2 else np.int64), np.array(vals)
+            s2.flags.writeable = False
+            v2.flags.writeable = False
+            S = ttb.sptensor(s2, v2, shape, copy=False)
     except Exception:  # noqa: BLE001
         S = None
     if S is not None and isinstance(S, ttb.sptensor) and tuple(int(v) for v in S.shape) == shape and _same(S, X):
@@ -527,7 +599,7 @@ def as_sptensor(X, stored="sorted", case=None):
     return ttb.sptensor(subs, vals, shape), label or "state-ctor"
 
 
-KTENSOR_STATES = ["ctor", "ctor", "normalize-into-mode", "normalize-into-mode", "normalize", "arrange", "redistribute", "f-order-input"]
+KTENSOR_STATES = ["ctor", "ctor", "normalize-into-mode", "normalize-into-mode", "normalize", "arrange", "redistribute", "f-order-input", "readonly-shared"]
 
 
 def _ktensor_parts(case, X):
@@ -570,6 +642,11 @@ def as_ktensor(case, X, with_label=False):
     try:
         if state == "f-order-input":
             K = ttb.ktensor([np.asfortranarray(f) for f in F], w.copy())
+        elif state == "readonly-shared" and not case.get("hist"):
+            F2, w2 = [np.asfortranarray(f) for f in F], w.copy()
+            for a in F2 + [w2]:
+                a.flags.writeable = False
+            K = ttb.ktensor(F2, w2, copy=False)
         elif state in ("normalize-into-mode", "normalize", "arrange", "redistribute"):
             K = ttb.ktensor([f.copy() for f in F], w.copy())
             k = int(case.get("tseed", 0)) % len(F)
@@ -625,7 +702,9 @@ def _ttensor_parts(case, X, sparse_core):
 
 def as_ttensor(case, X, sparse_core, with_label=False, sparse_factors=False):
     core, fm, form = _ttensor_parts(case, X, sparse_core)
-    dt = int_dtype_of(case, X) if ref.is_intvalued(core, *fm) else None
+    dt = "float32" if is_f32(case) else (int_dtype_of(case, X) if ref.is_intvalued(core, *fm) else None)
+    if sparse_factors and dt == "float16":
+        dt = "float32"  # scipy.sparse does not support float16
     state = case.get("state", "ctor")
     label = "state-ctor"
     kw = {}
@@ -633,6 +712,8 @@ def as_ttensor(case, X, sparse_core, with_label=False, sparse_factors=False):
         core = core.astype(dt)
         fm = [f.astype(dt) for f in fm] if case.get("tseed", 0) % 3 else fm
         label = "dtype-" + dt
+        if dt == "float32":
+            label += ",factors-" + ("float32" if case.get("tseed", 0) % 3 else "float64")
     c = None
     if sparse_core:
         subs = nonzeros_F(core)[0]
@@ -674,6 +755,12 @@ def as_ttensor(case, X, sparse_core, with_label=False, sparse_factors=False):
     elif state == "shared-arrays":
         kw = dict(copy=False)
         label = label if dt else "state-shared-arrays"
+        if case.get("tseed", 0) % 2 and not case.get("hist"):
+            # ... and read-only: nvecs only reads
+            fm = [np.asfortranarray(f) for f in fm]
+            for f in fm:
+                f.flags.writeable = False
+            label = label if dt else "state-shared-readonly-arrays"
     T = ttb.ttensor(c, fm, **kw)
     return (T, label + "," + form) if with_label else T
 
@@ -717,9 +804,81 @@ def _common_fields(draw, states):
     the class admits integer storage), the Python / numpy type n and r are passed as"""
     return dict(
         state=draw(st.sampled_from(list(states))),
-        dtype=draw(st.sampled_from(["float", "float", "float", "float", "float", "int64", "int32", "uint8"])),
-        npint=draw(st.sampled_from([None, None, "int64", "int32"])),
+        dtype=draw(st.sampled_from(["float"] * 8 + ["int64", "int32", "uint8", "int16", "int8", "uint16", "f16-intvalued", "f32-intvalued"])),
+        npint=draw(st.sampled_from(NPINTS)),
+        flipform=draw(st.sampled_from(FLIPFORMS)),
+        log=draw(st.sampled_from(LOGLEVELS)),
     )
+
+
+# round 4: how the caller presents the same request, and the process environment
+NPINTS = [None, None, None, "int64", "int32", "uint64", "intp", "uint32", "int16", "uint16"]
+FLIPFORMS = [None, None, None, "np.bool_", "positional", "positional-np.bool_"]
+LOGLEVELS = [None, None, None, "DEBUG", "DEBUG", "INFO"]
+
+
+def present(case, n, r, flip, I):
+    """(args, kwargs) of the nvecs call as the case presents it: n and r as Python int or a numpy integer scalar (16-bit
+    types only for mode sizes up to 64: scipy's eigsh sizes its workspace ncv*(ncv+8) in the caller's integer type),
+    flipsign as bool or numpy.bool_, by keyword or positionally in the documented order"""
+    t = case.get("npint")
+    if not t or (t in ("int16", "uint16") and I > 64):
+        nn, rr = int(n), int(r)
+    else:
+        nn, rr = getattr(np, t)(n), getattr(np, t)(r)
+    ff = case.get("flipform") or ""
+    f = np.bool_(flip) if "np.bool_" in ff else bool(flip)
+    return ((nn, rr, f), {}) if ff.startswith("positional") else ((nn, rr), dict(flipsign=f))
+
+
+@contextlib.contextmanager
+def root_logging(level):
+    """the root logger at `level` ("DEBUG" / "INFO"; None: leave everything as it is) with a NullHandler, and the
+    process-wide logging.disable (set by core.evaluate) lifted; everything restored on exit"""
+    if not level:
+        yield
+        return
+    root = logging.getLogger()
+    old_level, old_disable, old_handlers = root.level, root.manager.disable, root.handlers
+    # only a NullHandler: the module-level logging.warning(...) calls of the library may have installed a stream handler
+    # (basicConfig) earlier in the process, which would now write the DEBUG records to stderr
+    root.handlers = [logging.NullHandler()]
+    try:
+        logging.disable(logging.NOTSET)
+        root.setLevel(getattr(logging, level))
+        yield
+    finally:
+        root.setLevel(old_level)
+        root.handlers = old_handlers
+        logging.disable(old_disable)
+
+
+def snapshot(obj):
+    """copies of every array that parameterises the holder (values, subscripts, weights, factors, coo coordinates) + shape"""
+    if isinstance(obj, ttb.tensor):
+        arrs = [obj.data]
+    elif isinstance(obj, ttb.sptensor):
+        arrs = [obj.subs, obj.vals]
+    elif isinstance(obj, ttb.ktensor):
+        arrs = [obj.weights] + list(obj.factor_matrices)
+    elif isinstance(obj, ttb.ttensor):
+        arrs = [a for _, a in snapshot(obj.core)[0]]
+        for f in obj.factor_matrices:
+            arrs += [f.row, f.col, f.data] if sparse.issparse(f) and hasattr(f, "row") else [f.toarray() if sparse.issparse(f) else f]
+    else:
+        raise TypeError(type(obj))
+    return [(np.asarray(a).dtype.str, np.array(a, copy=True)) for a in arrs], tuple(int(v) for v in obj.shape)
+
+
+def same_snapshot(obj, snap):
+    """bit for bit the same parameterisation"""
+    try:
+        now, shape = snapshot(obj)
+    except Exception:  # noqa: BLE001
+        return False
+    old, oshape = snap
+    return shape == oshape and len(now) == len(old) and all(
+        d1 == d0 and a1.shape == a0.shape and ref.same_exact(a1, a0) for (d1, a1), (d0, a0) in zip(now, old))
 
 
 @st.composite
@@ -754,7 +913,7 @@ def model_case(draw, tier, families=("spectral", "spectral", "cp", "sparse"), st
         flat = gen._pattern_values(draw, n_cells, pattern, "int")
         if all(v == 0 for v in flat):
             flat[draw(st.integers(0, n_cells - 1))] = 2.0
-        if c["dtype"] == "uint8":
+        if c["dtype"] in ("uint8", "uint16"):
             flat = [abs(v) for v in flat]
         A = gen.arr_F(shape, flat)
         s2 = gen.sparse_case_from_dense(A)
@@ -834,7 +993,7 @@ def _sparse_fields(draw, shape, dtype, scales=(1.0, 1.0, 1e-6, 1e6, 0.3)):
     flat = gen._pattern_values(draw, n_cells, pattern, "int")
     if all(v == 0 for v in flat):
         flat[draw(st.integers(0, n_cells - 1))] = 2.0
-    if dtype == "uint8":
+    if dtype in ("uint8", "uint16"):
         flat = [abs(v) for v in flat]
     s2 = gen.sparse_case_from_dense(gen.arr_F(shape, flat))
     return dict(family="sparse", shape=list(shape), subs=s2["subs"], vals=s2["vals"], spectrum="sparse-" + pattern,
@@ -927,6 +1086,56 @@ def structured_case(draw, tier, cls="tensor", states=("ctor",)):
     return c
 
 
+WIDE_SHAPES = [([8, 5, 4], None), ([6, 12], None), ([12, 7], None), ([5, 4, 4], None), ([25, 6], 0), ([4, 30], 1), ([3, 9, 4], 1)]
+
+
+@st.composite
+def float32_case(draw, tier, states=("ctor",)):
+    """single-precision data: the families of the sampled / large cells, and spectral models whose singular values span
+    1 .. 1e-4 (Gram eigenvalues 1 .. 1e-8)"""
+    kind = draw(st.sampled_from(["wide", "wide", "wide", "model", "model", "large"]))
+    if kind == "model":
+        c = draw(model_case(tier, families=("spectral", "spectral", "sparse"), states=states))
+    elif kind == "large":
+        c = draw(large_case(tier, states=states))
+    else:
+        if draw(st.booleans()):
+            shape, n = draw(_shape_with_mode(tier, min_order=2))
+        else:
+            shape, n = draw(st.sampled_from(WIDE_SHAPES))
+            shape = list(shape)
+            n = draw(st.integers(0, len(shape) - 1)) if n is None else n
+        N = len(shape)
+        c = dict(np_seed=draw(st.integers(0, 2 ** 31 - 1)), flipsign=draw(st.sampled_from([True, True, False])),
+                 stored=draw(st.sampled_from(["sorted", "reverse"])), tseed=draw(SEEDS), kmode=draw(st.integers(0, N - 1)))
+        c.update(draw(_common_fields(states)))
+        c.update(draw(_spectral_fields(shape, n, kinds=["wide-1e-4", "wide-1e-4", "wide-decades", "wide-tail"],
+                                       scales=[1.0, 1.0, 37.5, 1e-6, 1e6, 1e3])))
+        I = shape[n]
+        c["r"] = draw(st.sampled_from(_r_pool(I, extra=[2, 3, 3, 3, 4, 5])))
+    c["dtype"] = "float32"
+    return c
+
+
+@st.composite
+def presentation_case(draw, tier, cls="tensor", states=("ctor",)):
+    """the same request twice: plainly (Python ints, flipsign by keyword as bool, logging as the harness leaves it) and as
+    presented (numpy scalars, numpy.bool_, positional flipsign, root logger at DEBUG / INFO) - at least one differs"""
+    kind = draw(st.integers(0, 5))
+    if kind == 0:
+        c = draw(large_case(tier, states=states))
+    elif kind == 1:
+        c = draw(structured_case(tier, cls=cls, states=states))
+    else:
+        c = draw(model_case(tier, states=states))
+    c["npint"] = draw(st.sampled_from(NPINTS[2:]))
+    c["flipform"] = draw(st.sampled_from(FLIPFORMS[2:]))
+    c["log"] = draw(st.sampled_from(["DEBUG", "DEBUG", "DEBUG", "INFO", None]))
+    if not (c["npint"] or c["flipform"] or c["log"]):
+        c["log"] = "DEBUG"
+    return c
+
+
 XL_FAMILIES = {"tensor": ["bigblock", "bigspectral"], "sptensor": ["bigblock"], "ktensor": ["bigblock", "bigcp", "bigcp"],
                "ttensor": ["bigblock", "bigtucker", "bigtucker"]}
 
@@ -996,7 +1205,8 @@ def long_case(draw, tier):
     shape, n = draw(_shape_with_mode(tier, min_order=2))
     N = len(shape)
     c = dict(np_seed=draw(st.integers(0, 2 ** 31 - 1)), flipsign=draw(st.sampled_from([True, True, False])), tseed=draw(SEEDS),
-             npint=draw(st.sampled_from([None, None, "int64"])))
+             npint=draw(st.sampled_from([None, None, "int64", "uint64", "int32"])), flipform=draw(st.sampled_from(FLIPFORMS)),
+             log=draw(st.sampled_from(LOGLEVELS)))
     c.update(draw(_spectral_fields(shape, n, kinds=SPECTRA, scales=SCALES)))
     others = [k for k in range(N) if k != n]
     chosen = draw(st.lists(st.sampled_from(others), min_size=1, max_size=min(2, len(others)), unique=True))
@@ -1033,6 +1243,7 @@ def history_case(draw, tier, states=("ctor",), cls=None):
     else:
         c = draw(model_case(tier, families=("spectral", "spectral", "cp", "sparse"), states=states))
     c["dtype"] = "float"
+    c["hist"] = True
     shape = c["shape"]
     N = len(shape)
     k = draw(st.integers(2, 4))
@@ -1048,6 +1259,12 @@ def history_case(draw, tier, states=("ctor",), cls=None):
         steps.append(dict(n=n, r=min(r, I), flipsign=draw(st.sampled_from([True, True, False])) if i else c["flipsign"], edit=edit,
                           fresh=draw(st.sampled_from([None] * 8 + TWINS)) if i else None, clobber=draw(st.integers(0, 3)) == 0,
                           np_seed=draw(st.integers(0, 2 ** 31 - 1))))
+    # round 4: the logging level of the root logger during a step; a request that is rejected (or that the class happens to
+    # accept) right before a valid step
+    for i, stp in enumerate(steps):
+        stp["log"] = draw(st.sampled_from(LOGLEVELS))
+        if draw(st.integers(0, 2)) == 0:
+            stp["reject"] = dict(kind=draw(st.sampled_from(REJECTS)), n=draw(st.integers(0, N - 1)), log=draw(st.sampled_from(LOGLEVELS)))
     if not any(s["edit"] for s in steps[1:]) and draw(st.booleans()):
         steps[-1]["edit"] = dict(kind="shear", arr=draw(st.integers(0, 7)), axis=0, i=draw(st.integers(0, 63)), j=draw(st.integers(0, 63)), val=2.0)
     # a history that forks: before step i a copy is made through the public API; the history goes on with the original
@@ -1057,6 +1274,26 @@ def history_case(draw, tier, states=("ctor",), cls=None):
                                                          go_on_with=draw(st.sampled_from(["original", "copy"])))
     c["steps"] = steps
     return c
+
+
+REJECTS = ["mode=N", "mode=N+3", "mode=-N-1", "r=0", "r=-1", "r=0", "r-float", "mode=N,r=0"]
+
+
+def rejected_args(kind, n, N, I):
+    """(n, r) of an ill-formed request: the mode does not exist, or the count is not a positive integer"""
+    if kind == "mode=N":
+        return N, 1
+    if kind == "mode=N+3":
+        return N + 3, 1
+    if kind == "mode=-N-1":
+        return -N - 1, 1
+    if kind == "r=0":
+        return n, 0
+    if kind == "r=-1":
+        return n, -1
+    if kind == "r-float":
+        return n, 1.5
+    return N, 0
 
 
 def attribute_arrays(obj):
@@ -1180,14 +1417,16 @@ def enum_models(tier):
                     for flip in (True, False):
                         yield dict(family="spectral", shape=list(sh), n=n, r=r, flipsign=flip, np_seed=seed, stored="reverse",
                                    tseed=seed + 5, kmode=(n + 1) % N, spectrum=kind, sing=spectrum(kind, m, 3.0),
-                                   useed=seed + 1, wseed=seed + 2)
+                                   useed=seed + 1, wseed=seed + 2, log=(None, "DEBUG", "INFO")[(seed + r) % 3],
+                                   flipform=FLIPFORMS[2:][(seed + r) % 4], npint=(None, "int64", "uint64", "int32", "intp")[(seed + 2 * r) % 5])
             if min(sh) >= 2:
                 R = min(min(sh), 3)
                 seed += 1
                 for r in range(1, I + 1):
                     yield dict(family="cp", shape=list(sh), n=n, r=r, flipsign=True, np_seed=seed, stored="sorted", tseed=seed,
                                kmode=0, rank=R, sigma=[(-1.0) ** k * x for k, x in enumerate(spectrum("geometric", R, 2.0))],
-                               fseed=seed, spectrum="cp-geometric", noise=dict(rank=1, weights=[1e-5]))
+                               fseed=seed, spectrum="cp-geometric", noise=dict(rank=1, weights=[1e-5]),
+                               log=("DEBUG", None)[(seed + r) % 2])
 
 
 # ----------------------------------------------------------------------------------------------------------------
@@ -1207,7 +1446,7 @@ def reference(X, n):
 NEGLIGIBLE = 1e-9  # eigenvalues below NEGLIGIBLE * lambda_1 form the "numerically zero" tail
 
 
-def spectrum_class(lam, r):
+def spectrum_class(lam, r, sep=SEP):
     """(k, class) for the request r:
     ("separated", k = r)    the r leading eigenvalues are pairwise separated and separated from the (r+1)-th;
     ("separated-then-negligible", k < r)   the k leading eigenvalues are separated like that and everything from the
@@ -1217,21 +1456,21 @@ def spectrum_class(lam, r):
     lam = np.asarray(lam, dtype=float)
     if lam[0] <= 0:
         return 0, "separated-then-negligible"
-    if separated(lam, r):
+    if separated(lam, r, sep):
         return r, "separated"
     gaps = -np.diff(lam[: min(r + 1, len(lam))])
     k = 0
-    while k < len(gaps) and gaps[k] >= SEP * lam[0]:
+    while k < len(gaps) and gaps[k] >= sep * lam[0]:
         k += 1
     if 1 <= k < r and lam[k] <= NEGLIGIBLE * lam[0]:
         return k, "separated-then-negligible"
     return 0, "not-separated"
 
 
-def separated(lam, r):
-    """leading r eigenvalues pairwise separated, and separated from the rest, by SEP * lambda_1"""
+def separated(lam, r, sep=SEP):
+    """leading r eigenvalues pairwise separated, and separated from the rest, by sep * lambda_1"""
     if lam[0] <= 0:
         return False
     upto = min(r + 1, len(lam))
     gaps = -np.diff(lam[:upto])
-    return bool((gaps >= SEP * lam[0]).all()) if gaps.size else True
+    return bool((gaps >= sep * lam[0]).all()) if gaps.size else True
